@@ -40,7 +40,8 @@ def lifecycle_scenarios(n_producers, dispatchers=("backtesting", "realtime"), fu
                                 "mc": 4,
                                 # every third scenario: user code wraps the log record factory during the run
                                 "wrap_factory": disp == "backtesting" and len(out) % 3 == 1,
-                                "user_converter": len(out) % 4 == 2})
+                                "user_converter": len(out) % 4 == 2,
+                                "thread": len(out) % 5 == 3})
     return out
 
 
@@ -217,6 +218,23 @@ class _Sink(logging.Handler):
 
 
 def run_lifecycle(sc):
+    if sc.get("thread"):
+        # an application that runs the dispatcher on a worker thread with its own event loop (and therefore asks for no
+        # signal handlers: stop_signals=[])
+        import threading
+        box = {}
+
+        def target():
+            try:
+                box["r"] = asyncio.run(_run_lifecycle(sc))
+            except BaseException as e:      # noqa
+                box["e"] = e
+        t = threading.Thread(target=target)
+        t.start()
+        t.join(30)
+        if "r" in box:
+            return box["r"]
+        return [], "Internal", True, "run on a worker thread: " + repr(box.get("e", "did not finish"))
     return asyncio.run(_run_lifecycle(sc))
 
 
